@@ -234,6 +234,14 @@ CHECKS['C22'] = dict(
     note='Not decided: equality of the value after format-then-parse (runtime-value property; e.g. negative years).',
     design='§4 C22')
 
+CHECKS['C20'] = dict(
+    technique='may-panic and allocation inventory over MIR of the persistence functions reachable from the loaders (T5); taint rule on allocation sizes and loop bounds decoded from the file (T7) with per-loop read-on-every-iteration analysis; recursion components vs depth guards (T6)',
+    text='Decides that no construct in the binary/JSON loaders can panic, that no allocation is sized by a number read from the file, that every '
+         'loop bounded by a number read from the file either reads (and so stops at end of file) on each iteration or validates the number, '
+         'and that the recursive expression reader is depth-limited. These hold for every byte content of the file.',
+    note='Not decided: serde_json / zstd internals; zstd::decode_all output size (reported in the evidence); the SQL-dump loader executes statements (C23/C24).',
+    design='§4 C20')
+
 NOT_APPLICABLE = {
     'C01': 'Equality of result multisets with a reference engine is a value-level semantic equivalence over all queries and data; no structural necessary condition beyond those claimed under C06/C21/C24 exists and a static rule cannot stand in for an oracle.',
     'C03': 'Columnar-vs-row agreement is determined by computed values (empty input, NULL handling, sums); a rejected shape falls back safely, so no table-agreement obligation exists whose breach necessarily changes results.',
